@@ -32,7 +32,7 @@ ODE = {
     "sys_q": dict(cat="Cat8", maxr=2, full="FALSE", configs="CfgThree", names="NmIon"),
     "full_q": dict(cat="Cat8", maxr=1, orders="OrdTwo", feeds="Fd1", configs="CfgFewBoth"),
     "zero_q": dict(cat="Cat2", maxr=2, full="FALSE", points="PtsZ1", feeds="FdZero2", kvals="KZ", configs="CfgZeroQ"),
-    "zero_t": dict(cat="Cat8", maxr=2, full="FALSE", points="PtsZero", feeds="FdZero", kvals="KZ", configs="CfgZero"),
+    "zero_t": dict(cat="Cat3", maxr=2, full="FALSE", points="PtsZ1", feeds="FdZero", kvals="KZ", configs="CfgZero"),
     "cfg_t": dict(cat="Cat8", maxr=2, full="FALSE", feeds="Fd1", configs="CfgAll"),
     "comp_t": dict(cat="Cat4", maxr=2, orders="OrdTwo", full="FALSE", feeds="Fd1", configs="CfgAllComp"),
     "sys_t": dict(cat="Cat32", maxr=2, full="FALSE", configs="CfgFew", names="NmIon"),
